@@ -920,14 +920,20 @@ theorem subscribeLoop_step (v fuel : Nat) (t : Topic) (rest : Bytes) (acc : List
   by_cases h5 : v = v5
   · rw [if_pos h5] at hvalid hcase
     obtain ⟨e1, e2, e3, e4, e5⟩ := opts_roundtrip qos rh nl rap hq hcase
-    simp only [optsByte, h5, if_true, hvalid, Bool.not_true, Bool.false_eq_true, if_false, e1, e2, e3, e4, e5]
-    simp
-    intro hgt
-    omega
+    have ht : topicOf v name (qos + b2n nl 4 + b2n rap 8 + rh * 16 % 256)
+        = { name := name, qos := qos, noLocal := nl, rap := rap, retainHandling := rh } := by
+      simp only [topicOf, h5, if_true, e1, e2, e3, e4]
+    have hb : (v != v5) = false := by simp [h5]
+    simp only [optsByte, h5, if_true, hvalid, Bool.not_true, Bool.false_eq_true, if_false, e5] at ht ⊢
+    rw [ht]
+    simp only [bne_self_eq_false, Bool.false_and, Bool.false_eq_true, if_false]
+    rw [if_neg (by omega)]
   · rw [if_neg h5] at hvalid hcase
     obtain ⟨rfl, rfl, rfl⟩ := hcase
     have hb : (v != v5) = true := by simp [bne_iff_ne, h5]
-    simp only [optsByte, h5, if_false, hvalid, Bool.not_true, Bool.false_eq_true, hb, Bool.true_and]
+    have ht : topicOf v name qos = { name := name, qos := qos, noLocal := false, rap := false, retainHandling := 0 } := by
+      simp only [topicOf, h5, if_false]
+    simp only [optsByte, h5, if_false, hvalid, Bool.not_true, Bool.false_eq_true, hb, Bool.true_and, ht]
     have e1 : ¬ (qos > 2) := by omega
     have e2 : qos / 64 % 4 = 0 := by omega
     simp [e1, e2]
@@ -998,28 +1004,6 @@ theorem opts_inv (o : Nat) (hres : o / 64 % 4 = 0) (ho : o < 256) :
     o % 4 + b2n (bit o 2) 4 + b2n (bit o 3) 8 + o / 16 % 4 * 16 % 256 = o := by
   by_cases h2 : o / 4 % 2 = 1 <;> by_cases h3 : o / 8 % 2 = 1 <;> simp [bit, b2n, h2, h3] <;> omega
 
-/-- the topic a round of the loop builds from the options byte -/
-def topicOf (v : Nat) (tf : Bytes) (opts : Nat) : Topic :=
-  if v = v5 then
-    { name := tf, qos := opts % 4, noLocal := bit opts 2, rap := bit opts 3, retainHandling := opts / 16 % 4 }
-  else { name := tf, qos := opts, noLocal := false, rap := false, retainHandling := 0 }
-
-theorem subscribeLoop_succ (v fuel : Nat) (w : Bytes) (acc : List Topic) :
-    subscribeLoop v (fuel + 1) w acc =
-      match readStr true w with
-      | .error e => .error e
-      | .ok (tf, w1) =>
-        if (if v = v5 then !validV5Topic tf else !validTopicFilter true tf) then .error .malformed else
-        match w1 with
-        | [] => .error .malformed
-        | opts :: w2 =>
-          if v != v5 && opts > 2 then .error .protocol
-          else if opts / 64 % 4 != 0 then .error .protocol
-          else if (topicOf v tf opts).qos > 2 then .error .protocol
-          else if w2.isEmpty then .ok (acc ++ [topicOf v tf opts])
-          else subscribeLoop v fuel w2 (acc ++ [topicOf v tf opts]) := by
-  simp only [subscribeLoop, topicOf]
-
 /-- whatever the topic loop accepts: at least one topic, every topic well-formed, and the topics re-encode to exactly
     the bytes they were read from -/
 theorem subscribeLoop_inv (v : Nat) (fuel : Nat) : ∀ (w : Bytes) (acc ts : List Topic), AllBytes w →
@@ -1029,7 +1013,7 @@ theorem subscribeLoop_inv (v : Nat) (fuel : Nat) : ∀ (w : Bytes) (acc ts : Lis
   | zero => intro w acc ts _ h; simp [subscribeLoop] at h
   | succ fuel ih =>
     intro w acc ts hb h
-    rw [subscribeLoop_succ] at h
+    simp only [subscribeLoop] at h
     cases hr : readStr true w with
     | error e => rw [hr] at h; cases h
     | ok r =>
@@ -1080,7 +1064,6 @@ theorem subscribeLoop_inv (v : Nat) (fuel : Nat) : ∀ (w : Bytes) (acc ts : Lis
                   have hw2 : w2 = [] := (isEmpty_iff_nil _).mp hemp
                   refine ⟨[topicOf v tf opts], rfl, by simp, fun x hx => by simp at hx; subst hx; exact hwf, ?_⟩
                   simp only [List.flatMap_cons, List.flatMap_nil, List.append_nil, henc, he, hw2]
-                  simp
                 · rw [if_neg hemp] at h
                   obtain ⟨new, hts, _, hwfn, hencn⟩ := ih w2 (acc ++ [topicOf v tf opts]) ts hb2 h
                   refine ⟨topicOf v tf opts :: new, by rw [hts]; simp, by simp, ?_, ?_⟩
@@ -1124,7 +1107,8 @@ theorem subscribe_decode_wf (v : Nat) (w : Bytes) (s : Subscribe) (hb : AllBytes
           refine ⟨rfl, hpid, hne, hwfn, ?_, ?_⟩
           · unfold WFOptProps; rw [if_pos h5]; exact ⟨ps, rfl, hwf⟩
           · rw [subscribeBody_eq]
-            simp only [if_true, List.length_append, writeU16, List.length_cons, List.length_nil, henc]
+            simp only [h5, if_true, List.length_append, writeU16, List.length_cons, List.length_nil]
+            rw [← h5, henc]
             rcases hsz with hsz | ⟨_, _, hw2⟩
             · omega
             · subst hw2
@@ -1154,5 +1138,251 @@ theorem subscribe_decode_wf (v : Nat) (w : Bytes) (s : Subscribe) (hb : AllBytes
           simp only [h5, if_false, List.nil_append, List.length_append, writeU16, List.length_cons,
             List.length_nil, henc]
           omega
+
+def WFFilter (tf : Bytes) : Prop := tf.length ≤ 65535 ∧ validUTF8 tf = true ∧ validTopicFilter true tf = true
+
+def WFUnsubscribe (v : Nat) (u : Unsubscribe) : Prop :=
+  u.version = v ∧ u.pid < 65536 ∧ u.topics ≠ [] ∧ (∀ t ∈ u.topics, WFFilter t) ∧ WFOptProps v tUNSUBSCRIBE u.props
+    ∧ (unsubscribeBody u).length < 268435456
+
+theorem writeBin_ne_nil (s : Bytes) : writeBin s ≠ [] := by simp [writeBin, writeU16]
+
+theorem unsubscribeLoop_enc (ts : List Bytes) : ∀ (fuel : Nat) (acc : List Bytes), ts ≠ [] →
+    (∀ t ∈ ts, WFFilter t) → ts.length ≤ fuel →
+    unsubscribeLoop fuel (ts.flatMap writeBin) acc = .ok (acc ++ ts) := by
+  induction ts with
+  | nil => intro _ _ h; exact (h rfl).elim
+  | cons t ts ih =>
+    intro fuel acc _ hw hf
+    cases fuel with
+    | zero => simp at hf
+    | succ fuel =>
+      obtain ⟨hl, hu, hv⟩ := hw t (by simp)
+      simp only [List.flatMap_cons, unsubscribeLoop, readStr_writeBin t hl hu, hv, Bool.not_true,
+        Bool.false_eq_true, if_false]
+      cases ts with
+      | nil => simp
+      | cons t2 ts2 =>
+        have hne : (List.flatMap writeBin (t2 :: ts2)).isEmpty = false := by
+          simp only [List.flatMap_cons]
+          cases h : writeBin t2 with
+          | nil => exact (writeBin_ne_nil t2 h).elim
+          | cons a b => simp
+        rw [hne]
+        simp only [Bool.false_eq_true, if_false]
+        rw [ih fuel (acc ++ [t]) (by simp) (fun x hx => hw x (by simp [hx])) (by simp at hf ⊢; omega)]
+        simp
+
+theorem flatMap_writeBin_length (ts : List Bytes) : ts.length ≤ (ts.flatMap writeBin).length := by
+  induction ts with
+  | nil => simp
+  | cons t ts ih =>
+    simp only [List.flatMap_cons, List.length_append, List.length_cons]
+    have : 0 < (writeBin t).length := List.length_pos_iff.mpr (writeBin_ne_nil t)
+    omega
+
+theorem unsubscribe_encode_decode (v : Nat) (u : Unsubscribe) (h : WFUnsubscribe v u) :
+    unpackUnsubscribe v (unsubscribeBody u) = .ok u := by
+  obtain ⟨hv, hpid, hne, hts, hprops, _⟩ := h
+  obtain ⟨uv, pid, topics, props⟩ := u
+  simp only at hv hpid hne hts hprops
+  subst hv
+  have hloop : ∀ acc, unsubscribeLoop ((topics.flatMap writeBin).length + 1) (topics.flatMap writeBin) acc
+      = .ok (acc ++ topics) := fun acc =>
+    unsubscribeLoop_enc topics _ acc hne hts (by have := flatMap_writeBin_length topics; omega)
+  unfold WFOptProps at hprops
+  by_cases h5 : uv = v5
+  · rw [if_pos h5] at hprops
+    obtain ⟨l, rfl, hw⟩ := hprops
+    have hup := unpackProps_packProps (some tUNSUBSCRIBE) l hw (topics.flatMap writeBin)
+    simp only [unsubscribeBody, h5, if_true, List.append_assoc, unpackUnsubscribe, readU16_writeU16 pid hpid]
+    rw [hup]
+    simp only
+    rw [hloop []]
+    simp
+  · rw [if_neg h5] at hprops
+    subst hprops
+    simp only [unsubscribeBody, h5, if_false, List.append_assoc, List.nil_append, unpackUnsubscribe,
+      readU16_writeU16 pid hpid]
+    rw [hloop []]
+    simp
+
+theorem unsubscribeLoop_inv (fuel : Nat) : ∀ (w : Bytes) (acc ts : List Bytes), AllBytes w →
+    unsubscribeLoop fuel w acc = .ok ts →
+    ∃ new, ts = acc ++ new ∧ new ≠ [] ∧ (∀ t ∈ new, WFFilter t) ∧ new.flatMap writeBin = w := by
+  induction fuel with
+  | zero => intro w acc ts _ h; simp [unsubscribeLoop] at h
+  | succ fuel ih =>
+    intro w acc ts hb h
+    simp only [unsubscribeLoop] at h
+    cases hr : readStr true w with
+    | error e => rw [hr] at h; cases h
+    | ok r =>
+      obtain ⟨tf, w1⟩ := r
+      rw [hr] at h
+      simp only at h
+      obtain ⟨he, htl, htu, hb1⟩ := readStr_inv hb hr
+      by_cases hvalid : (!validTopicFilter true tf) = true
+      · rw [if_pos hvalid] at h; cases h
+      · rw [if_neg hvalid] at h
+        simp only [Bool.not_eq_true', Bool.not_eq_false] at hvalid
+        have hwf : WFFilter tf := ⟨htl, htu, hvalid⟩
+        by_cases hemp : w1.isEmpty = true
+        · rw [if_pos hemp] at h
+          cases h
+          have hw1 : w1 = [] := (isEmpty_iff_nil _).mp hemp
+          refine ⟨[tf], rfl, by simp, fun x hx => by simp at hx; subst hx; exact hwf, ?_⟩
+          simp only [List.flatMap_cons, List.flatMap_nil, List.append_nil, he, hw1]
+        · rw [if_neg hemp] at h
+          obtain ⟨new, hts, _, hwfn, hencn⟩ := ih w1 (acc ++ [tf]) ts hb1 h
+          refine ⟨tf :: new, by rw [hts]; simp, by simp, ?_, ?_⟩
+          · intro x hx
+            rcases List.mem_cons.mp hx with rfl | hx
+            · exact hwf
+            · exact hwfn x hx
+          · simp only [List.flatMap_cons, hencn, he]
+
+theorem unsubscribe_decode_wf (v : Nat) (w : Bytes) (u : Unsubscribe) (hb : AllBytes w) (hl : w.length ≤ 268435455)
+    (h : unpackUnsubscribe v w = .ok u) : WFUnsubscribe v u := by
+  simp only [unpackUnsubscribe] at h
+  cases hr : readU16 w with
+  | error e => rw [hr] at h; cases h
+  | ok r =>
+    obtain ⟨pid, w1⟩ := r
+    rw [hr] at h
+    simp only at h
+    obtain ⟨he, hpid⟩ := readU16_inv w pid w1 hb hr
+    have hb1 : AllBytes w1 := by rw [he] at hb; exact (allBytes_append.mp hb).2
+    have hlen := readU16_len hr
+    by_cases h5 : v = v5
+    · rw [if_pos h5] at h
+      cases hu : unpackProps (some tUNSUBSCRIBE) w1 with
+      | error e => rw [hu] at h; cases h
+      | ok r2 =>
+        obtain ⟨ps, w2⟩ := r2
+        rw [hu] at h
+        simp only at h
+        obtain ⟨hwf, hb2⟩ := unpackProps_wf (some tUNSUBSCRIBE) w1 ps w2 hb1 hu
+        have hsz := unpackProps_size (some tUNSUBSCRIBE) w1 ps w2 hb1 hu
+        cases hloop : unsubscribeLoop (w2.length + 1) w2 [] with
+        | error e => rw [hloop] at h; cases h
+        | ok ts =>
+          rw [hloop] at h
+          cases h
+          obtain ⟨new, hts, hne, hwfn, henc⟩ := unsubscribeLoop_inv _ w2 [] ts hb2 hloop
+          simp only [List.nil_append] at hts
+          subst hts
+          refine ⟨rfl, hpid, hne, hwfn, ?_, ?_⟩
+          · unfold WFOptProps; rw [if_pos h5]; exact ⟨ps, rfl, hwf⟩
+          · simp only [unsubscribeBody, h5, if_true, List.length_append, writeU16, List.length_cons,
+              List.length_nil, henc]
+            rcases hsz with hsz | ⟨_, _, hw2⟩
+            · omega
+            · subst hw2
+              have : ts = [] := by
+                cases ts with
+                | nil => rfl
+                | cons t ts' =>
+                  simp only [List.flatMap_cons] at henc
+                  cases hh : writeBin t with
+                  | nil => exact (writeBin_ne_nil t hh).elim
+                  | cons a b => rw [hh] at henc; simp at henc
+              exact (hne this).elim
+    · rw [if_neg h5] at h
+      simp only at h
+      cases hloop : unsubscribeLoop (w1.length + 1) w1 [] with
+      | error e => rw [hloop] at h; cases h
+      | ok ts =>
+        rw [hloop] at h
+        cases h
+        obtain ⟨new, hts, hne, hwfn, henc⟩ := unsubscribeLoop_inv _ w1 [] ts hb1 hloop
+        simp only [List.nil_append] at hts
+        subst hts
+        refine ⟨rfl, hpid, hne, hwfn, ?_, ?_⟩
+        · unfold WFOptProps; rw [if_neg h5]
+        · simp only [unsubscribeBody, h5, if_false, List.nil_append, List.length_append, writeU16, List.length_cons,
+            List.length_nil, henc, List.append_nil]
+          omega
+
+/-! ### CONNECT -/
+
+def WFOptStr (flag : Bool) (o : Option Bytes) (utf8 : Bool) : Prop :=
+  if flag then ∃ b, o = some b ∧ b.length ≤ 65535 ∧ (utf8 = true → validUTF8 b = true) else o = none
+
+def WFConnect (c : Connect) : Prop :=
+  c.version = c.level ∧ protoNameOf c.level = some c.protoName
+    ∧ c.willQos ≤ 2 ∧ (c.willFlag = false → c.willQos = 0 ∧ c.willRetain = false)
+    ∧ WFOptStr c.willFlag c.willTopic true ∧ WFOptStr c.willFlag c.willMsg false
+    ∧ c.keepAlive < 65536
+    ∧ c.clientID.length ≤ 65535 ∧ validUTF8 c.clientID = true
+    ∧ (c.level ≠ v5 → c.clientID = [] → c.cleanStart = true)
+    ∧ WFOptStr c.usernameFlag c.username true ∧ WFOptStr c.passwordFlag c.password false
+    ∧ (if c.level = v5 then
+         (∃ l, c.props = some l ∧ WFProps (some tCONNECT) l) ∧
+         (if c.willFlag then ∃ wl, c.wprops = some wl ∧ WFProps none wl else c.wprops = some [])
+       else c.props = none ∧ c.wprops = none)
+    ∧ ∃ b, connectBody c = .ok b ∧ b.length < 268435456
+
+theorem encodeUTF8String_eq {s : Bytes} (h : s.length ≤ 65535) : encodeUTF8String s = .ok (writeBin s) := by
+  have : s.length % 65536 = s.length := by omega
+  simp [encodeUTF8String, writeBin, Nat.not_lt.mpr h, this]
+
+theorem flags_roundtrip (uf pf wr wf cs : Bool) (q : Nat) (hq : q ≤ 2) :
+    let f := b2n uf 128 + b2n pf 64 + b2n wr 32 + b2n wf 4 + (if q = 1 then 8 else if q = 2 then 16 else 0) + b2n cs 2
+    f % 2 = 0 ∧ bit f 1 = cs ∧ bit f 2 = wf ∧ f / 8 % 4 = q ∧ bit f 5 = wr ∧ bit f 6 = pf ∧ bit f 7 = uf := by
+  have : q = 0 ∨ q = 1 ∨ q = 2 := by omega
+  rcases this with rfl | rfl | rfl <;> cases uf <;> cases pf <;> cases wr <;> cases wf <;> cases cs <;>
+    simp [b2n, bit]
+
+theorem protoNameOf_some {level : Nat} {n : Bytes} (h : protoNameOf level = some n) :
+    (level = 3 ∨ level = 4 ∨ level = 5) ∧ n.length ≤ 65535 := by
+  unfold protoNameOf at h
+  split at h
+  · cases h; exact ⟨Or.inl (by assumption), by simp⟩
+  · split at h
+    · cases h; exact ⟨Or.inr (Or.inl (by assumption)), by simp⟩
+    · split at h
+      · cases h; exact ⟨Or.inr (Or.inr (by assumption)), by simp⟩
+      · cases h
+
+theorem willPart_roundtrip (c : Connect) (rest : Bytes)
+    (hwt : WFOptStr c.willFlag c.willTopic true) (hwm : WFOptStr c.willFlag c.willMsg false)
+    (hwp : if c.version = v5 then (if c.willFlag then ∃ wl, c.wprops = some wl ∧ WFProps none wl else True) else True) :
+    ∃ wp, packWillPart c = .ok wp ∧
+      ∀ c0 : Connect, c0.willFlag = c.willFlag → c0.version = c.version →
+        (c.willFlag = false → c0.wprops = c.wprops ∧ c0.willTopic = c.willTopic ∧ c0.willMsg = c.willMsg) →
+        (c.version ≠ v5 → c0.wprops = c.wprops) →
+        unpackWillPart c0 (wp ++ rest) =
+          .ok ({ c0 with wprops := c.wprops, willTopic := c.willTopic, willMsg := c.willMsg }, rest) := by
+  unfold WFOptStr at hwt hwm
+  cases hwf : c.willFlag with
+  | false =>
+    refine ⟨[], by simp [packWillPart, hwf], ?_⟩
+    intro c0 h1 _ h3 _
+    obtain ⟨e1, e2, e3⟩ := h3 hwf
+    simp only [unpackWillPart, h1, hwf, Bool.false_eq_true, if_false, List.nil_append]
+    rw [← e1, ← e2, ← e3]
+  | true =>
+    rw [hwf] at hwt hwm
+    simp only [if_true] at hwt hwm
+    obtain ⟨wt, hwt1, hwtl, hwtu⟩ := hwt
+    obtain ⟨wm, hwm1, hwml, _⟩ := hwm
+    refine ⟨(if c.version = v5 then packWillProps c.wprops else []) ++ writeBin wt ++ writeBin wm, ?_, ?_⟩
+    · simp [packWillPart, hwf, hwt1, hwm1, encodeUTF8String_eq hwtl, encodeUTF8String_eq hwml]
+    · intro c0 h1 h2 _ h4
+      simp only [unpackWillPart, h1, hwf, if_true, h2]
+      by_cases h5 : c.version = v5
+      · rw [if_pos h5] at hwp
+        rw [hwf] at hwp
+        simp only [if_true] at hwp
+        obtain ⟨wl, hwl, hwfl⟩ := hwp
+        have hup := unpackProps_packProps none wl hwfl (writeBin wt ++ (writeBin wm ++ rest))
+        rw [← packWillProps_eq wl hwfl.2.2.1] at hup
+        simp only [h5, if_true, hwl, List.append_assoc, hup, readStr_writeBin wt hwtl (hwtu rfl),
+          readBin_writeBin wm hwml]
+        rw [hwt1, hwm1]
+      · simp only [h5, if_false, List.nil_append, List.append_assoc, readStr_writeBin wt hwtl (hwtu rfl),
+          readBin_writeBin wm hwml]
+        rw [hwt1, hwm1, h4 h5]
 
 end GmqttVerif.Codec
